@@ -350,6 +350,9 @@ def run(ctx, rep):
     check_capacity_lookup(ctx, rep, eff, table_vars)
     rep.floor("Q1", 4)
     rep.floor("Q2", 4)
+    # Q1b: the count the comparator reads is the atom's bond-order sum: who may write it, and how
+    from rules.shared import check_bond_count_writers
+    check_bond_count_writers(ctx, rep, "Q1")
     # Q3 (from the public entry, so that wrappers are covered)
     api_enc = ctx.api("encoder")
     off = set(eff.region(api_enc, {"strict": False})) if "strict" in api_enc.params else off
